@@ -100,7 +100,7 @@ var damageTokens = strings.Fields(`func return if else for range switch case def
  x.y x[0] x[:] x[1:2] f() &T{} *T []int{} map[string]int{} func(){} -1 ^1 !x`)
 
 // Damage is one way in which source text reaching an entry point goes bad.
-var damageKinds = []string{"none", "torn-save", "spliced-overwrite", "flipped-byte", "garbage-tail", "token-insert", "token-delete", "token-dup", "invalid-utf8", "nul-byte", "long-ident", "deep-nesting", "line-shuffle"}
+var damageKinds = []string{"none", "torn-save", "spliced-overwrite", "flipped-byte", "garbage-tail", "token-insert", "token-delete", "token-dup", "invalid-utf8", "nul-byte", "long-ident", "deep-nesting", "line-shuffle", "int-literal-swap"}
 
 // damage applies one damage kind; other is a second source for splices.
 func damage(r *core.PRNG, kind string, src, other []byte) []byte {
@@ -196,6 +196,19 @@ func damage(r *core.PRNG, kind string, src, other []byte) []byte {
 		p := r.Intn(len(src) + 1)
 		mid := strings.Repeat(open, depth) + inner + strings.Repeat(close, depth)
 		return append(cp(src[:p]), append([]byte(" "+mid+" "), src[p:]...)...)
+	case "int-literal-swap":
+		toks := roughTokens(src)
+		var idx []int
+		for i, t := range toks {
+			if len(t) > 0 && t[0] >= '0' && t[0] <= '9' {
+				idx = append(idx, i)
+			}
+		}
+		if len(idx) == 0 {
+			return src
+		}
+		toks[core.Pick(r, idx)] = core.Pick(r, wildInts)
+		return []byte(strings.Join(toks, ""))
 	case "line-shuffle":
 		lines := strings.SplitAfter(string(src), "\n")
 		if len(lines) < 2 {
